@@ -22,6 +22,7 @@ TECH["C17"]="rapid-generated call multisets executed concurrently under the race
 TECH["C20"]="rapid property-based testing of the emitted mock server: build/vet oracle plus response decode/example-membership oracles"
 TECH["C18"]="rapid property-based testing of emitted OpenAPI documents: independent YAML/JSON parsers, structural invariants, YAML-vs-JSON metamorphic equality"
 TECH["C19"]="rapid differential testing of two acceptance sets: reference buf.validate rule semantics vs Python jsonschema (2020-12) on boundary probes"
+TECH["C06"]="rapid property-based testing of emitted client/server traffic against the emitted OpenAPI document; oracle = Python jsonschema (2020-12) + undeclared-property walker"
 TEXT={
  "C12":("Generated-input search: every rule x placement cell of the documented catalogue is injected into rapid-drawn valid schemas and judged at the process boundary of the real plugins; the converse is checked on every base schema. Exploration, not proof: cells are enumerated, surroundings sampled.","§5 C12"),
  "C14":("Differential property test over rapid-drawn schemas: byte identity of same-named files, plus behavioural equality of server-only and client-only builds on generated values. Exploration.","§5 C14"),
@@ -42,6 +43,7 @@ TEXT["C17"]=("Random multisets of 10-80 calls over all routes run at parallelism
 TEXT["C20"]=("Schemas are generated with generate_mock=true; the package must build and vet, the mock-backed generated server must answer valid requests with 200 and a body that decodes to the response type in its documented JSON form, and fields with examples must hold a parsable example. Exploration on the sub-domain the mock generator compiles for; the rest is pinned as known findings.","§5 C20")
 TEXT["C18"]=("Every emitted document of rapid-drawn schemas is parsed with parsers the plugin does not use and checked for the listed structural invariants under all four format settings; YAML and JSON renderings are compared as trees. Exploration.","§5 C18")
 TEXT["C19"]=("For each rule-carrying field probes at and around every bound are encoded with the reference model and judged both by the reference rule semantics and by jsonschema against the published property schema; any disagreement is a violation. Exploration with boundary-directed probes.","§5 C19")
+TEXT["C06"]=("Request bodies sent by the generated Go client, response bodies of the generated Go server (200 / 400 / default) and the path, query and header values as sent are validated with jsonschema against the schemas the service's OpenAPI document publishes for that operation, and walked for properties no subschema describes; the default value of every request/response type must satisfy its component schema. Exploration.","§5 C06")
 NOTE={
  "C12":"Trusted: schema generator + protodesc gate stand in for protoc; error text naming the offender is the 'names the offender' criterion.",
  "C14":"Trusted: protoc-gen-go, Go toolchain, protovalidate stand-in (not exercised by codecs).",
@@ -62,6 +64,7 @@ NOTE["C17"]="Trusted: Go race detector; the harness does not own the scheduler; 
 NOTE["C20"]="Trusted: as C13 for the build half; OpenAPI conformance of mock bodies is left to C06's validator."
 NOTE["C18"]="Trusted: go.yaml.in/yaml/v4 and encoding/json as independent parsers; descriptor-derived reachability; libopenapi's own model builder is not used as a second opinion (it is the library under test's dependency)."
 NOTE["C19"]="Trusted: Python jsonschema Draft 2020-12; the stand-in validator as R; float32 values equal to a bound are not probed (decimal shortest form is ambiguous at the boundary)."
+NOTE["C06"]="Trusted: Python jsonschema, independent OpenAPI parsing, reference model for the default-value converse; format keywords are annotations."
 claimed=sorted(TECH)
 checks=[]
 for p in claimed:
